@@ -73,7 +73,15 @@ func genC08(c *lp.Ctx) {
 			}
 			run := strings.Repeat("a", runBytes)
 			var keys []string
-			switch c.Rng.Intn(3) {
+			variant := c.Rng.Intn(4)
+			if runBytes >= 32766 && (flags == "nnnn" || flags == "fnnn") {
+				variant = 3 // always cover the long run in front of a 257-bit node
+			}
+			switch variant {
+			case 3: // the run leads to a 257-bit root: more than 10 keys fan out behind it
+				for b := 0; b < 12; b++ {
+					keys = append(keys, run+string([]byte{byte(0x30 + 7*b)}))
+				}
 			case 0:
 				keys = []string{"0", run + "b", run + "c", "z"}
 			case 1: // the run ends in the middle of a byte: branch on the low half-byte
